@@ -20,6 +20,7 @@ mod c12;
 mod c13;
 mod c14;
 mod c15;
+mod c20;
 mod c16;
 mod c17;
 mod c18;
@@ -51,6 +52,7 @@ fn run_line(prop: &str, line: &str) -> String {
     "C13" => c13::run(args),
     "C14" => c14::run(args),
     "C15" => c15::run(args),
+    "C20" => c20::run(args),
     "C16" => c16::run(args),
     "C17" => c17::run(args),
     "C18" => c18::run(args),
@@ -92,6 +94,7 @@ fn main() {
         "C13" => c13::gen(thorough, seed, &mut out),
         "C14" => c14::gen(thorough, seed, &mut out),
         "C15" => c15::gen(thorough, seed, &mut out),
+        "C20" => c20::gen(thorough, seed, &mut out),
         "C16" => c16::gen(thorough, seed, &mut out),
         "C17" => c17::gen(thorough, seed, &mut out),
         "C18" => c18::gen(thorough, seed, &mut out),
